@@ -184,11 +184,12 @@ func (mw *Middleware) processLocationErr(
 	// We've got a bad ECS option.  Log and respond with a FORMERR immediately.
 	optslog.Debug1(ctx, mw.logger, "ecs error", slogutil.KeyError, origErr)
 
+	// Don't return the original error, since it has been handled by responding
+	// with a FORMERR, and the server would also respond with a SERVFAIL to it.
 	resp := mw.messages.NewRespRCode(req, dns.RcodeFormatError)
 	writeErr := rw.WriteMsg(ctx, req, resp)
-	writeErr = errors.Annotate(writeErr, "writing formerr resp: %w")
 
-	return errors.WithDeferred(origErr, writeErr)
+	return errors.Annotate(writeErr, "writing formerr resp: %w")
 }
 
 // handleDeviceResult processes the device result and indicates whether the
